@@ -238,8 +238,8 @@ def r8_leq_table_sizes(ctx):
 RULES += [r8_leq_table_sizes]
 
 
-def r10_oct_twin_lookups(ctx):
-    ctx.rule("C04.r10", "octagons (split_oct): a relation between two signed vertices s -> d that is derived from the BOUNDS of the "
+def r10_oct_twin_lookups(ctx, rid="C04.r10"):
+    ctx.rule(rid, "octagons (split_oct): a relation between two signed vertices s -> d that is derived from the BOUNDS of the "
              "other operand is the path s -> twin(s) ... twin(d) -> d, so of the two bound lookups one starts at s (`lookup(s, "
              "twin(s))`) and the other ends at d (`lookup(twin(d), d)`), with twin(v) = v + 1 for an even (positive) vertex and "
              "v - 1 for an odd one, in each of the four parity cases of join, widening and inclusion", floor=12)
@@ -342,7 +342,7 @@ def r10_oct_twin_lookups(ctx):
             else:
                 ctx.ok("%s: %s / %s" % (fn["name"], src(x["c"])[:24], src(y["c"])[:24]), fn, x["c"])
     if n == 0:
-        ctx.fail("rule C04.r10: no paired twin lookups found in split_oct.hpp")
+        ctx.fail("rule %s: no paired twin lookups found in split_oct.hpp" % rid)
 
 
 RULES += [r10_oct_twin_lookups]
